@@ -11,19 +11,19 @@ import os
 
 from vlib import MachineryError, read_ndjson, split_runs
 
-MODES = {"C09": ["cut"], "C15": ["frag", "fault"], "C07": ["flip", "overwrite"]}
-EVS = {"cut": "Cut", "frag": "Frag", "fault": "Fault", "flip": "Flip", "overwrite": "Flip"}
+MODES = {"C09": ["cut"], "C15": ["frag", "fault", "callfault"], "C07": ["flip", "overwrite"]}
+EVS = {"cut": "Cut", "frag": "Frag", "fault": "Fault", "callfault": "Fault", "flip": "Flip", "overwrite": "Flip"}
 KEY = {"cut": "cut", "fault": "at", "frag": "policy", "flip": "pos", "overwrite": "pos"}
 
 RULES = {
     "C09": "every cut position 0..len-1 of each generated file x {lexer validate on/off, scan iterator}; non-trivial = the cut read returned at least one token and fewer than the full read; distinct = distinct (file, path, cut) whose abstract observation differs",
-    "C15": "4 fragmentation policies x read paths (lexer, scan, indexed file/log order; stream and seekable) and an injected non-EOF error at every byte of each file; non-trivial = the fault fired (or the delivery was fragmented); distinct = distinct abstract observations",
+    "C15": "4 fragmentation policies x read paths (lexer, scan, indexed file/log order; stream and seekable), an injected non-EOF error at every byte of each file, and a one-shot / persistent error at every call on a seekable source (Read and Seek) through the scan, index-based and default reads; non-trivial = the fault fired (or the delivery was fragmented); distinct = distinct abstract observations",
     "C07": "every single-bit flip of every stored chunk payload byte and of every attachment field/data byte of each file (CRCs on), lexer with validation, error and invalid-token modes, plus seeded multi-byte overwrites and range swaps; non-trivial = the flip was detected (not benign); distinct = distinct (file, position, bit, mode)",
 }
 
 SIZES = {
     ("C09", "quick"): {"cut": (4, 8)}, ("C09", "thorough"): {"cut": (40, 10)},
-    ("C15", "quick"): {"frag": (12, 10), "fault": (4, 8)}, ("C15", "thorough"): {"frag": (150, 14), "fault": (36, 10)},
+    ("C15", "quick"): {"frag": (12, 10), "fault": (4, 8), "callfault": (8, 8)}, ("C15", "thorough"): {"frag": (150, 14), "fault": (36, 10), "callfault": (80, 10)},
     ("C07", "quick"): {"flip": (3, 8), "overwrite": (6, 8)}, ("C07", "thorough"): {"flip": (24, 9), "overwrite": (60, 9)},
 }
 
@@ -47,7 +47,7 @@ def judge(ctx, prop, mode, trace, wls):
             ctx.traces += 1
             if mode == "cut":
                 nt = 1 <= e["n"] < fulls.get((e["via"], e["validate"]), 0)
-            elif mode == "fault":
+            elif mode in ("fault", "callfault"):
                 nt = e["fired"]
             elif mode == "frag":
                 nt = True
@@ -74,6 +74,8 @@ def judge(ctx, prop, mode, trace, wls):
                 only = "cut=%d" % e["cut"]
             elif mode == "fault":
                 only = "at=%d" % e["at"]
+            elif mode == "callfault":
+                only = "call=%d" % e["call"]
             elif mode in ("flip",):
                 only = "flip=%d" % (e["pos"] * 8 + e["bit"])
 
